@@ -1,0 +1,13 @@
+//go:build verif
+
+/*
+SPDX-License-Identifier: Apache-2.0
+*/
+
+package batch
+
+// VerifStep runs one writer iteration (monitor tick when force is false, batch-timeout tick when force is true)
+// so that an external verification harness, not wall-clock tickers, decides when ticks happen.
+func (r *Writer) VerifStep(force bool) uint {
+	return r.processAvailable(force)
+}
